@@ -148,6 +148,9 @@ func ResponseEncoder(ctx context.Context, w http.ResponseWriter) Encoder {
 				default:
 					enc = json.NewEncoder(w)
 				}
+			} else {
+				// default to JSON if the content type cannot be parsed
+				enc, mt = negotiate("")
 			}
 			SetContentType(w, mt)
 			return enc
